@@ -227,6 +227,10 @@ def render(name, fd, spec):
     return '%s(%s)' % (n, ', '.join(args)), binds
 
 
+_PARSE_FORM = [0]
+_TIMEOUTS = [0]        # (once several statements have run into the watchdog, the rest get a short one)
+
+
 def evaluate(engine, ctx, text, binds, src, timeout=20.0):
     from yaql.language import exceptions as exc
     c = ctx.create_child_context()
@@ -234,15 +238,44 @@ def evaluate(engine, ctx, text, binds, src, timeout=20.0):
         c[k] = v
     c['src'] = src
     signal.signal(signal.SIGALRM, _alarm)
-    signal.setitimer(signal.ITIMER_REAL, timeout)
+    signal.setitimer(signal.ITIMER_REAL, timeout if _TIMEOUTS[0] < 8 else min(timeout, 3.0))
     try:
         try:
-            st = engine(text)
+            # the three ways of parsing a statement on a configured engine; the per-statement options repeat a setting the engine
+            # already has, so they change nothing - the limits the engine was created with stay in force
+            _PARSE_FORM[0] += 1
+            form = _PARSE_FORM[0] % 3
+            same = {'yaql.convertTuplesToLists': engine.options.get('yaql.convertTuplesToLists', True)}
+            if form == 1 and hasattr(engine, 'copy'):
+                st = engine(text, same)
+            elif form == 2 and hasattr(engine, 'copy'):
+                st = engine.copy(same)(text)
+            else:
+                st = engine(text)
         except Exception as e:  # noqa
             return ('parse:' + type(e).__name__, None)
-        v = st.evaluate(context=c)
+        # (a code change that loses a limit must show up as a violation, not take the machine down: the address space of this
+        # process is capped at its present size + 4 GB while the statement runs)
+        import resource
+        soft0, hard0 = resource.getrlimit(resource.RLIMIT_AS)
+        try:
+            with open('/proc/self/statm') as f_:
+                cur = int(f_.read().split()[0]) * resource.getpagesize()
+            cap = cur + (4 << 30)
+            if hard0 == resource.RLIM_INFINITY or cap <= hard0:
+                resource.setrlimit(resource.RLIMIT_AS, (cap, hard0))
+        except (OSError, ValueError):
+            pass
+        try:
+            v = st.evaluate(context=c)
+        finally:
+            try:
+                resource.setrlimit(resource.RLIMIT_AS, (soft0, hard0))
+            except (OSError, ValueError):
+                pass
         return ('value', v)
     except Alarm:
+        _TIMEOUTS[0] += 1
         return ('timeout', None)
     except SourceOverrun:
         return ('overrun', None)
